@@ -277,3 +277,64 @@ func H_M9_map_built() {
 	_, derr := mi.unmarshalPointer(out, pointer{p: unsafe.Pointer(y)}, 0, mMapsOpts())
 	nd.Assert(derr == nil && len(y.M3) == len(x.M3) && len(y.M4) == len(x.M4), "the encoding decodes to a map with the same number of entries")
 }
+
+// H_M4_oneof_map_alias: decoded oneof members (string, bytes, message) and map keys/values
+// (string, message) do not alias the input buffer.
+//
+//verif:props=C14 bounds=v.One:one-record(any-member)|v.Maps:one-entry-record(field-1..4);exact-shape-payloads;input-overwritten-after-decode maxsteps=8000000 timeout=60000
+func H_M4_oneof_map_alias() {
+	if nd.Bool() {
+		rec, _, _ := mOneRecord(nd.Int(0, 6))
+		mAlias(30, rec)
+	} else {
+		rec, _, _, _ := mMapEntry(nd.Int(1, 4))
+		mAlias(32, rec)
+	}
+}
+
+// H_M9_map_lengths: length-prefix boundaries of map entries. One entry built in Go whose value
+// (a string, or a Child holding a string) has length L around the 1-byte/2-byte varint boundary
+// of the entry and value length prefixes (content is irrelevant and concrete): Size equals the
+// length of Marshal, and the output decodes back to the same message.
+//
+//verif:props=C04,C03 bounds=v.Maps.m2|m3|m4;one-entry-built-in-Go;value-length-118..133(quick)/100..140+16370..16390(thorough);concrete-content maxsteps=20000000 timeout=60000
+func H_M9_map_lengths() {
+	L := nd.Int(118, 133)
+	if nd.Thorough() {
+		if nd.Bool() {
+			L = nd.Int(100, 140)
+		} else {
+			L = nd.Int(16370, 16390)
+		}
+	}
+	pay := string(make([]byte, L))
+	x := new(VMaps)
+	switch nd.Int(0, 2) {
+	case 0:
+		x.M2 = map[string]string{"k": pay}
+	case 1:
+		x.M3 = map[int32]*VChild{1: {S: &pay}}
+	default:
+		x.M4 = map[string]*VChild{"k": {S: &pay}}
+	}
+	var fl protoiface.MarshalInputFlags
+	if nd.Bool() {
+		fl = protoiface.MarshalDeterministic
+	}
+	mi := vMI_Maps()
+	p := pointer{p: unsafe.Pointer(x)}
+	size := mi.sizePointer(p, marshalOptions{flags: fl})
+	out, err := mi.marshalAppendPointer(nil, p, marshalOptions{flags: fl})
+	nd.Reach("marshalled")
+	nd.Assert(err == nil, "marshal succeeds")
+	nd.Assert(len(out) == size, "Size equals the length of Marshal output across the length-prefix boundary")
+	y := new(VMaps)
+	o, derr := mi.unmarshalPointer(out, pointer{p: unsafe.Pointer(y)}, 0, mMapsOpts())
+	nd.Assert(derr == nil && o.n == len(out), "the encoding of a long map entry decodes")
+	if derr == nil {
+		det := marshalOptions{flags: protoiface.MarshalDeterministic}
+		c1, _ := mi.marshalAppendPointer(nil, p, det)
+		c2, _ := mi.marshalAppendPointer(nil, pointer{p: unsafe.Pointer(y)}, det)
+		nd.Assert(mEq(c1, c2), "long map entry round trips")
+	}
+}
